@@ -44,6 +44,7 @@ static Feature FEAT(MultiTag &t, size_t i) { if (t.featureCount() <= i) throw No
 static void need(bool c) { if (!c) throw NotEnabled(); }
 
 obs::Pool created;
+obs::Pool outlive;
 
 typedef std::vector<std::string> VS;
 
@@ -134,6 +135,15 @@ std::vector<Op> entity_alphabet(int level) {
     add(1, "a1.dataExtent(+1)", [=](File &f) { DataArray a = A(f, b1, "a1"); NDSize e = a.dataExtent(); need(e.size() == 1 && e[0] < 6); e[0] += 1; a.dataExtent(e); });
     add(1, "a1.dataExtent(-1)", [=](File &f) { DataArray a = A(f, b1, "a1"); NDSize e = a.dataExtent(); need(e.size() == 1 && e[0] > 0); e[0] -= 1; a.dataExtent(e); });
     add(1, "a1.setData(cell0)", [=](File &f) { DataArray a = A(f, b1, "a1"); NDSize e = a.dataExtent(); need(e.size() == 1 && e[0] > 0); double v = -9.25; a.setData(DataType::Double, &v, NDSize({1}), NDSize({0})); });
+    // several growth steps through ONE handle that is still alive when the file is closed
+    add(2, "a1.dataExtent(+1,+1,+2) + setData through one handle that outlives close()", [=](File &f) {
+        DataArray a = A(f, b1, "a1"); NDSize e = a.dataExtent(); need(e.size() == 1 && e[0] < 4);
+        for (int st : {1, 1, 2}) { e[0] += st; a.dataExtent(e); double v = 0.5 * (double)e[0]; a.setData(DataType::Double, &v, NDSize({1}), NDSize({e[0] - 1})); }
+        outlive.arrays[a.id()] = a; });
+    add(2, "a2.appendData(axis0) x3 through one handle that outlives close()", [=](File &f) {
+        DataArray a = A(f, b1, "a2"); NDSize e = a.dataExtent(); need(e.size() == 2 && e[0] < 3 && e[1] > 0);
+        for (int k = 0; k < 3; k++) { std::vector<int32_t> d(e[1], 7 + k); NDSize c2(2, 1); c2[1] = e[1]; a.appendData(DataType::Int32, d.data(), c2, 0); }
+        outlive.arrays[a.id()] = a; });
     add(2, "a2.setData(whole)", [=](File &f) { DataArray a = A(f, b1, "a2"); NDSize e = a.dataExtent(); need(e.size() == 2 && e.nelms() > 0); std::vector<int32_t> d(e.nelms()); for (size_t i = 0; i < d.size(); i++) d[i] = 100 + (int)i; a.setData(DataType::Int32, d.data(), e, NDSize({0, 0})); });
     add(2, "a2.appendData(axis0)", [=](File &f) { DataArray a = A(f, b1, "a2"); NDSize e = a.dataExtent(); need(e.size() == 2 && e[0] < 4 && e[1] > 0); std::vector<int32_t> d(e[1], 7); a.appendData(DataType::Int32, d.data(), NDSize({ndsize_t(1), e[1]}), 0); });
     add(1, "a1.appendSetDimension", [=](File &f) { DataArray a = A(f, b1, "a1"); need(a.dimensionCount() < 2); a.appendSetDimension({"p", "q", "r"}); });
